@@ -16,7 +16,7 @@ LEVEL = "exploration"
 SHARDS = {"quick": 8, "thorough": 16}
 RULE = ("model-based histories against a model V3 device (configuration: max connection lifetime in {None, 30 s, 600 s}); events "
         "from {send, send with the device silent, send answered by an error packet, send during which the peer closes, next "
-        "connect refused, explicit authenticate with good credentials / bad token / bad key / while the device ignores handshakes, a send whose handshake reply arrives damaged, sleep past 12 h, sleep past the "
+        "connect refused, explicit authenticate with good credentials / bad token / bad key / while the device ignores handshakes / while the device refuses connections, a send whose handshake reply arrives damaged, sleep past 12 h, sleep past the "
         "connection lifetime, short sleep, cancel the running send/authenticate at a protocol phase}; up to 30 (quick) / 60 "
         "(thorough) events. A monitor parses every byte the device receives on every connection with the reference codec: (1) "
         "before the first genuinely answered handshake on a connection only handshake requests carrying the token configured "
@@ -190,6 +190,14 @@ def check_history(case: dict):
                     mode["badkey"] = True
                     faulted = True
                     await ac.authenticate(TOKEN, BAD_KEY)
+                elif k == "auth_refused":
+                    # the device is unreachable while the user authenticates (connect refused)
+                    dev.connect_script.append("refuse")
+                    for c in dev.conns:
+                        c.close()
+                    await asyncio.sleep(0.01)
+                    faulted = True
+                    await ac.authenticate(TOKEN, KEY)
                 elif k == "auth_silent":
                     mode["hs_silent"] = True
                     faulted = True
@@ -343,7 +351,7 @@ def events(max_len: int):
     phases = [0.02, 0.5, 1.07, 2.5, 3.6]
     ev = st.one_of(
         st.just(["send"]), st.just(["send"]), st.just(["send"]), st.just(["send_silent"]), st.just(["send_error"]), st.just(["send_close"]),
-        st.just(["refuse"]), st.just(["auth_good"]), st.just(["auth_bad_token"]), st.just(["auth_bad_key"]), st.just(["auth_silent"]), st.just(["send_garbled_hs"]),
+        st.just(["refuse"]), st.just(["auth_good"]), st.just(["auth_bad_token"]), st.just(["auth_bad_key"]), st.just(["auth_silent"]), st.just(["auth_refused"]), st.just(["send_garbled_hs"]),
         st.integers(0, 100).map(lambda x: ["sleep_12h", x]), st.integers(0, 100).map(lambda x: ["sleep_life", x]),
         st.sampled_from([0.01, 0.5, 3.0, 29.0, 31.0, 599.0, 3600.0]).map(lambda x: ["sleep", x]),
         st.tuples(st.sampled_from(phases), st.sampled_from([0.0, 0.01, -0.01]), st.sampled_from(["send", "send", "auth"])).map(lambda t: ["cancel", round(t[0] + t[1], 3), t[2]]),
@@ -351,7 +359,7 @@ def events(max_len: int):
     body = st.lists(ev, min_size=1, max_size=max_len)
     # most histories start with a successful explicit authentication (the object needs credentials once); the rest start cold
     # every history starts with an explicit authentication attempt: that call is what tells the library the device is V3
-    first = st.sampled_from([["auth_good"], ["auth_good"], ["auth_good"], ["auth_good"], ["auth_silent"], ["auth_bad_token"], ["auth_bad_key"],
+    first = st.sampled_from([["auth_good"], ["auth_good"], ["auth_good"], ["auth_good"], ["auth_silent"], ["auth_refused"], ["auth_bad_token"], ["auth_bad_key"],
                              ["cancel", 0.02, "auth"], ["cancel", 0.5, "auth"]])
     return st.tuples(first, body).map(lambda t: [t[0]] + t[1])
 
@@ -370,7 +378,7 @@ def run(ctx) -> None:
                 scripts.append({"config": {"lifetime": lifetime}, "events": [["auth_good"]] + [[p] for p in prefix] + [tail, ["send"], ["send"]]})
                 scripts.append({"config": {"lifetime": lifetime}, "events": [["auth_good"]] + [[p] for p in prefix] + [tail, ["auth_bad_key"], ["send"], ["send"]]})
                 scripts.append({"config": {"lifetime": lifetime}, "events": [["auth_good"]] + [[p] for p in prefix] + [tail, ["send_garbled_hs"], ["send"]]})
-        for first_ev in (["auth_silent"], ["cancel", 0.02, "auth"], ["cancel", 0.5, "auth"], ["auth_bad_token"], ["auth_bad_key"]):
+        for first_ev in (["auth_silent"], ["auth_refused"], ["cancel", 0.02, "auth"], ["cancel", 0.5, "auth"], ["auth_bad_token"], ["auth_bad_key"]):
             scripts.append({"config": {"lifetime": lifetime}, "events": [first_ev, ["send"], ["auth_good"], ["send"]]})
     for i, case in enumerate(scripts):
         if ctx.mine(i + 2):
